@@ -3,7 +3,9 @@ import z3
 
 from pyvc import models, smt
 from pyvc.smt import NONE, Ref
-from pyvc.spec import RaisesClause, Spec
+from pyvc.spec import Clause, RaisesClause, Spec
+
+Clause_of = Clause.of
 from pyvc.values import V, fresh_name, obj, parse_ty, Ty
 
 M = 'bubus/models.py'
@@ -236,3 +238,79 @@ def install(spec: Spec):
                      ('signals_when_handlers_and_children_done', 'implies(old(all_results_terminal(self)) and old(len(self.event_results) == 0), signalled(self))', ['C03']),
                      ('other_signals_untouched', "forall(lambda s: implies(s is not self._event_completed_signal, s.ev_set == old(s.ev_set)), 'AsyncEvent')", ['C03', 'C08'])])
     spec.methods[('BaseEvent', 'event_mark_complete_if_all_handlers_completed')] = 'BaseEvent.event_mark_complete_if_all_handlers_completed'
+
+
+
+def install_late(spec: Spec):
+    """Contracts that refer to interference specs defined by service_c (installed after it)."""
+    from pyvc.values import mk_none
+    # ------------------------------------------------------------------ BaseEvent.__await__ (C02 C03 C04 C05 C10 C15 C16)
+    from pyvc.spec import Interference
+    from pyvc.values import mk_int as _mi, mk_bool as _mb
+    spec.ghosts['inhand'] = parse_ty('int')          # events taken from a queue by this activation and not yet task_done()d (0 or 1)
+    spec.ghosts['inhand_q'] = parse_ty('any')        # the queue the event in hand came from
+    descends = z3.Function('descends_from', Ref, Ref, z3.BoolSort())     # event a is a (transitive) child of event b: no fact is known about it here
+    quiescent = z3.Function('no_other_task_holds_an_unstarted_event_of', Ref, z3.BoolSort())
+
+    def aw_get_pre(ex, n):
+        # C02: an event may be taken from a bus queue inline only if no earlier event of that bus is dequeued-but-not-started elsewhere
+        bus = ex.lookup('bus')
+        ex.oblige('callsite:get_nowait/requires', 'no_earlier_event_of_this_bus_in_hand_elsewhere', quiescent(bus.term), ['C02'])
+
+    def aw_get_post_model(ex, n, awaited, recv=None):
+        aw_get_pre(ex, n)
+        q = ex.eval(n.func.value)
+        C = ex.spec.functions['CleanShutdownQueue.get_nowait']
+        # A5 (with every task balancing its task_done() calls): a queue's unfinished count is never below its size
+        ex.assume(ex.read_field(q.term, 'q_unfinished').term >= ex.list_len(ex.read_field(q.term, 'q_items')))
+        r = ex.apply_contract(C, {'self': q})
+        ex.ghost_set('inhand', _mi(ex.ghost('inhand').term + 1))
+        ex.ghost_set('inhand_q', q)
+        ex.ghost_set('dequeued', ex.list_append(ex.ghost('dequeued'), r))
+        return r
+
+    def aw_process_pre(ex, n):
+        me = ex.lookup('self')
+        ev = ex.lookup('event')
+        bus = ex.lookup('bus')
+        # C05: what is processed inline is the awaited event or one of its descendants
+        ex.oblige('callsite:process_event/requires', 'inline_target_is_awaited_event_or_descendant', z3.Or(ev.term == me.term, descends(ev.term, me.term)), ['C05'])
+        # C16: only a running bus may have its queue drained inline
+        ex.oblige('callsite:process_event/requires', 'inline_bus_is_running', ex.read_field(bus.term, '_is_running').term, ['C16'])
+
+    def aw_task_done_model(ex, n, awaited, recv=None):
+        q = ex.eval(n.func.value)
+        from contracts import axioms_asyncio as ax
+        ax.queue_task_done(ex, n, awaited, q)
+        ex.ghost_set('task_done_calls', _mi(ex.ghost('task_done_calls').term + 1))
+        ex.ghost_set('inhand', _mi(ex.ghost('inhand').term - 1))
+        return mk_none()
+
+    Q_ACC = "implies(inhand == 1, inhand_q is not None and inhand_q.q_unfinished >= len(inhand_q.q_items) + 1)"
+    spec.interference['await'] = Interference('await', havoc=['*'], keep=spec.interference['default'].keep,
+        rely=spec.interference['handlers'].rely + [Clause_of(('signals_are_never_cleared', "forall(lambda s: implies(old(s.ev_set), s.ev_set), 'AsyncEvent')", [])),
+                                                   Clause_of(('queues_are_kept', "forall(lambda b: implies(old(b.event_queue) is not None, b.event_queue is old(b.event_queue)), 'EventBus')", [])),
+                                                   Clause_of(('signal_objects_are_kept', "forall(lambda e: implies(old(e._event_completed_signal) is not None, e._event_completed_signal is old(e._event_completed_signal)), 'BaseEvent')", []))],
+        inv=[('queue_accounting', Q_ACC, ['C15']), ('at_most_one_in_hand', 'inhand == 0 or inhand == 1', ['C15'])])
+
+    IN_HANDLER_BRANCH = "old(not signalled(self)) and ctx('inside_handler') and ctx('holds_global_lock')"
+    spec.fn('BaseEvent.__await__.wait', file=M, qual='BaseEvent.__await__.<locals>.wait_for_handlers_to_complete_then_return_event', is_async=True,
+            interference='await', params={}, free={'self': 'BaseEvent'}, returns='BaseEvent', cancel_must_propagate=True,
+            requires=[('in_loop', 'loop_running()', []),
+                      ('all_buses_serial', "forall(lambda b: not b.parallel_handlers, 'EventBus')", []),
+                      ('nothing_in_hand', 'inhand == 0', [])],
+            modifies=[('_event_completed_signal', '*'), ('ev_set', '*'), ('q_items', '*'), ('q_unfinished', '*'), ('event_results', '*'), ('status', '*'), ('result', '*'), ('error', '*'),
+                      ('started_at', '*'), ('completed_at', '*'), ('_handler_completed_signal', '*'), ('event_processed_at', '*'), ('event_history', '*'), ('task_done', '*'), ('task_cancel_requested', '*')],
+            ghost_modifies=['inhand', 'inhand_q', 'dequeued', 'processed', 'task_done_calls', 'invoked', 'eh_calls', 'wal_calls', 'wal_lines', 'wal_opens', 'cancel_walk_calls'],
+            callsites={'bus.event_queue.get_nowait': {'model': aw_get_post_model, 'writes': ['q_items'], 'ghost_writes': ['inhand', 'inhand_q', 'dequeued']},
+                       'bus.process_event': {'pre': aw_process_pre},
+                       'bus.event_queue.task_done': {'model': aw_task_done_model, 'writes': ['q_unfinished'], 'ghost_writes': ['task_done_calls', 'inhand']}},
+            loops={0: {'inv': [('nothing_in_hand_between_iterations', 'inhand == 0', ['C15', 'C10']), ('queue_accounting', Q_ACC, ['C15']), ('iterations_bounded', 'iterations >= 0', [])]},
+                   1: {'inv': [('nothing_in_hand_between_buses', 'inhand == 0', ['C15', 'C10']), ('queue_accounting', Q_ACC, ['C15'])]}},
+            exits_ensure=[('every_taken_event_is_task_done', 'inhand == 0', ['C10', 'C15'])],
+            ensures=[('returns_the_same_event', 'result is self', ['C03', 'C04']),
+                     ('complete_at_return_outside_handlers', 'implies(not (' + IN_HANDLER_BRANCH + '), signalled(self))', ['C03']),
+                     ('complete_at_return_inside_handlers', 'implies(' + IN_HANDLER_BRANCH + ', signalled(self))', ['C04'])],
+            raises_tags=['C03', 'C04', 'C11'],
+            raises=[RaisesClause('CancelledError', label='cancelled', tags=['C04', 'C10']),
+                    RaisesClause('Exception', label='unexpected', origin='call:EventBus.process_event/unexpected')])
